@@ -149,7 +149,17 @@ def run_tree(prop, tier, res, want, variants, budget, events=100):
                 raise Inconclusive("trace names a filter the specification does not know: " + txt[:300])
             if cls in want:
                 classes[cls] += 1
-                res.classify(cls, txt, artefact={"trace": os.path.basename(f), "line": ln, "seed": vlib.seed(), "tier": tier})
+                window = None
+                if classes[cls] <= 2 and ln > 0:
+                    # keep the part of the recorded trace that leads to the rejected line with the replay artefact
+                    try:
+                        with open(f) as fh:
+                            ls = fh.readlines()
+                        begin = max(i for i in range(ln) if '"e":"begin"' in ls[i]) if any('"e":"begin"' in x for x in ls[:ln]) else 0
+                        window = {"scenario_header": ls[begin].strip(), "lines_before": [x.strip() for x in ls[max(begin, ln - 80):ln - 1]], "rejected_line": ls[ln - 1].strip()}
+                    except Exception:
+                        window = None
+                res.classify(cls, txt, artefact={"trace": os.path.basename(f), "line": ln, "seed": vlib.seed(), "tier": tier, "trace_window": window})
         if len(samples) < 2:
             with open(f) as fh:
                 ls = fh.readlines()
